@@ -210,6 +210,17 @@ pub fn to_string_displaced(
     stringify(node, Some(context), displace_data, false, locale, language)
 }
 
+/// `stringify_reference` reports a reference that no longer exists as the
+/// English `#REF!`; a formula shown (and re-entered) in another language needs
+/// the error name of that language.
+fn localize_ref_error(reference: String, language: &Language) -> String {
+    if reference == "#REF!" {
+        language.errors.r#ref.clone()
+    } else {
+        reference
+    }
+}
+
 /// Converts a local reference to a string applying some displacement if needed.
 /// It uses A1 style if context is not None. If context is None it uses R1C1 style
 /// If full_row is true then the row details will be omitted in the A1 case
@@ -516,19 +527,22 @@ fn stringify(
             row,
             absolute_row,
             absolute_column,
-        } => stringify_reference(
-            context,
-            &DisplaceData::None,
-            &Reference {
-                sheet_name,
-                sheet_index: 0,
-                row: *row,
-                column: *column,
-                absolute_row: *absolute_row,
-                absolute_column: *absolute_column,
-            },
-            false,
-            false,
+        } => localize_ref_error(
+            stringify_reference(
+                context,
+                &DisplaceData::None,
+                &Reference {
+                    sheet_name,
+                    sheet_index: 0,
+                    row: *row,
+                    column: *column,
+                    absolute_row: *absolute_row,
+                    absolute_column: *absolute_column,
+                },
+                false,
+                false,
+            ),
+            language,
         ),
         ReferenceKind {
             sheet_name,
@@ -537,19 +551,22 @@ fn stringify(
             row,
             absolute_row,
             absolute_column,
-        } => stringify_reference(
-            context,
-            displace_data,
-            &Reference {
-                sheet_name,
-                sheet_index: *sheet_index,
-                row: *row,
-                column: *column,
-                absolute_row: *absolute_row,
-                absolute_column: *absolute_column,
-            },
-            false,
-            false,
+        } => localize_ref_error(
+            stringify_reference(
+                context,
+                displace_data,
+                &Reference {
+                    sheet_name,
+                    sheet_index: *sheet_index,
+                    row: *row,
+                    column: *column,
+                    absolute_row: *absolute_row,
+                    absolute_column: *absolute_column,
+                },
+                false,
+                false,
+            ),
+            language,
         ),
         RangeKind {
             sheet_name,
@@ -599,7 +616,11 @@ fn stringify(
                 full_row,
                 full_column,
             );
-            format!("{s1}:{s2}")
+            format!(
+                "{}:{}",
+                localize_ref_error(s1, language),
+                localize_ref_error(s2, language)
+            )
         }
         WrongRangeKind {
             sheet_name,
@@ -648,7 +669,11 @@ fn stringify(
                 full_row,
                 full_column,
             );
-            format!("{s1}:{s2}")
+            format!(
+                "{}:{}",
+                localize_ref_error(s1, language),
+                localize_ref_error(s2, language)
+            )
         }
         OpRangeKind { left, right } => format!(
             "{}:{}",
@@ -1028,7 +1053,7 @@ fn stringify(
                 )
             }
         },
-        ErrorKind(kind) => format!("{kind}"),
+        ErrorKind(kind) => kind.to_localized_error_string(language),
         ParseErrorKind { formula, .. } => formula.to_string(),
         EmptyArgKind => "".to_string(),
         SpillRangeOperator { child } => {
